@@ -284,7 +284,7 @@ class Dofs:
             self.edge_dofs = np.empty((0, 0), dtype=np.int32)
 
         # facet dofs
-        if element.facet_dofs > 0:
+        if element.dim >= 2 and element.facet_dofs > 0:
             self.facet_dofs = np.reshape(
                 np.arange(element.facet_dofs * topo.nfacets,
                           dtype=np.int32),
